@@ -160,6 +160,9 @@ type gBytes struct {
 	Field string
 }
 type gFuncV struct{ Obj *gObj }
+
+// gBytesCat: a byte slice built by concatenating literal text and token values
+type gBytesCat struct{ Parts []gv }
 type gTuple []gv
 
 // gRef: pointer to an object (struct, token, position, opaque list base ...)
@@ -542,8 +545,19 @@ func (r *gRun) isNil(v gv) bool {
 	case gStale:
 		r.fail("stale", token.NoPos, "nil test on %s", x.Why)
 		return false
+	case gOpaque:
+		// an opaque value (e.g. the error result of a conversion): both outcomes are possible
+		k := "nilq:" + x.Desc
+		if d, ok := r.facts[k]; ok {
+			return d
+		}
+		c := r.decide("nil:"+x.Desc, 2, []string{x.Desc + "==nil", x.Desc + "!=nil"})
+		r.facts[k] = c == 0
+		return c == 0
+	case gInt, gBool, gStr, gBytes, gBytesCat, gAddr:
+		return false
 	}
-	return false
+	panic(gAbort{"nil test on a value of unmodelled kind " + describeG(v)})
 }
 
 // fieldType finds the field of a struct type by name.
@@ -833,6 +847,12 @@ func describeG(v gv) string {
 		return x.Key
 	case gBytes:
 		return x.Obj.Origin + "." + x.Field
+	case gBytesCat:
+		var parts []string
+		for _, p := range x.Parts {
+			parts = append(parts, describeG(p))
+		}
+		return "bytes(" + strings.Join(parts, " + ") + ")"
 	case gLen:
 		if x.Add != 0 {
 			return fmt.Sprintf("(len(%s)+%d)", x.Base.Origin, x.Add)
@@ -1044,6 +1064,8 @@ func (r *gRun) exec(in ssa.Instruction) {
 		x := r.val(i.X)
 		if c, ok := x.(gInt); ok {
 			r.env[i] = c
+		} else if st, ok := x.(gStr); ok && shortType(i.Type()) == "[]byte" {
+			r.env[i] = gBytesCat{Parts: []gv{st}}
 		} else {
 			r.env[i] = gOpaque{"convert<" + shortType(i.Type()) + ">(" + describeG(x) + ")"}
 		}
@@ -1571,6 +1593,20 @@ func (r *gRun) call(i *ssa.Call) {
 	if bi, ok := cc.Value.(*ssa.Builtin); ok {
 		switch bi.Name() {
 		case "append":
+			if bc, isB := args[0].(gBytesCat); isB {
+				nb := gBytesCat{Parts: append([]gv{}, bc.Parts...)}
+				switch m := args[1].(type) {
+				case gBytes:
+					nb.Parts = append(nb.Parts, m)
+				case gBytesCat:
+					nb.Parts = append(nb.Parts, m.Parts...)
+				default:
+					r.fail("subset", i.Pos(), "append of %s to bytes", describeG(args[1]))
+					panic(gAbort{"unmodelled append"})
+				}
+				r.env[i] = nb
+				return
+			}
 			base, ok := args[0].(*gList)
 			if !ok {
 				if _, isNil := args[0].(gNil); isNil {
@@ -1726,8 +1762,14 @@ func (r *gRun) call(i *ssa.Call) {
 		b.Pre[k] = gRef{c}
 		r.env[i] = gRef{c}
 		return
-	case full == "strconv.Atoi":
-		r.env[i] = gTuple{gOpaque{"atoi"}, gOpaque{"atoi-err(" + describeG(args[0]) + ")"}}
+	case strings.HasPrefix(full, "strconv.") && callee.Signature.Results().Len() == 2:
+		// pure standard-library conversion: (value, error) as opaque functions of the arguments
+		var as []string
+		for _, a := range args {
+			as = append(as, describeG(a))
+		}
+		d := full + "(" + strings.Join(as, ", ") + ")"
+		r.env[i] = gTuple{gOpaque{d + "#0"}, gOpaque{d + "#err"}}
 		return
 	case strings.HasSuffix(full, "pkg/errors.NewError"):
 		r.env[i] = gOpaque{"error(" + describeG(args[0]) + ")"}
